@@ -1,12 +1,13 @@
 #!/bin/sh
-# Builds the harness once (warms the Go build cache). Offline; everything comes from /repo, /verif and the module cache.
+# Builds every harness binary once (warms the Go build cache). Offline; everything comes from /repo, /verif and the module cache.
 set -e
 cd "$(dirname "$0")"
 python3 - <<'PY'
-import sys
+import os, sys
 sys.path.insert(0, "lib")
 import vlib
 c = vlib.Ctx("setup", "quick", 1)
-print(c.build(False))
-print(c.build(True))
+for prog in sorted(os.listdir("harness/cmd")):
+    print(c.build(False, prog))
+    print(c.build(True, prog))
 PY
